@@ -153,6 +153,38 @@ impl Cfg {
             c.reset();
             return c;
         }
+        if self.api.starts_with("set") {
+            // created with a configuration that does no match finding at all (or a different one),
+            // then switched to the wanted level by one of the setters before any input: the result
+            // must behave like a compressor created from the flags of that level
+            let fmt = if self.zlib { DataFormat::Zlib } else { DataFormat::Raw };
+            let mut c = match self.api {
+                "set0" | "setR" => CompressorOxide::with_params(fmt, 0, CompressionStrategy::Default, 15),
+                "setH" => CompressorOxide::with_params(fmt, 6, CompressionStrategy::HuffmanOnly, 15),
+                "set9" => CompressorOxide::with_params(fmt, 9, CompressionStrategy::Default, 15),
+                _ => {
+                    let mut c = CompressorOxide::new(0);
+                    c.set_format_and_level(fmt, 0);
+                    c
+                }
+            };
+            if self.api == "setR" {
+                let junk: Vec<u8> = (0..5000u32).map(|i| (i.wrapping_mul(2654435761) >> 11) as u8).collect();
+                let mut out = vec![0u8; 20000];
+                let _ = compress(&mut c, &junk, &mut out, TDEFLFlush::Finish);
+                c.reset();
+            }
+            match self.level % 3 {
+                0 => c.set_compression_level_raw(self.level),
+                1 => c.set_format_and_level(fmt, self.level),
+                _ => {
+                    use miniz_oxide::deflate::CompressionLevel as L;
+                    let l = match self.level { 1 => L::BestSpeed, 9 => L::BestCompression, 10 => L::UberCompression, 6 => L::DefaultLevel, _ => L::DefaultLevel };
+                    if l as u8 == self.level { c.set_compression_level(l) } else { c.set_compression_level_raw(self.level) }
+                }
+            }
+            return c;
+        }
         if self.api == "params" {
             CompressorOxide::with_params(
                 if self.zlib { DataFormat::Zlib } else { DataFormat::Raw },
@@ -170,6 +202,10 @@ impl Cfg {
         }
     }
     pub fn json(&self, c: &CompressorOxide) -> Value {
+        if self.api.starts_with("set") {
+            return json!({"api": "flags", "level": self.level, "strategy": 0, "zlib": self.zlib, "wbits": 15, "flags": c.flags(),
+                          "reused": self.api == "setR", "made_by": self.api});
+        }
         json!({"api": if self.api == "params_reused" { "params" } else { self.api }, "level": self.level, "strategy": STRATS[self.strat].2, "zlib": self.zlib,
                "wbits": if self.api != "flags" { self.wbits } else { 15 }, "flags": c.flags(), "reused": self.api == "params_reused"})
     }
